@@ -9,13 +9,15 @@ def decode(string):
   return unsafe_decode(string)
 
 def validate_encoded(string):
-  if not re.match("^[ !-~]+\\Z", string):
+  if not re.match("^[!-~]+( [!-~]+)*\\Z", string):
     raise gfapy.FormatError(
       "{} is not a valid list of GFA2 identifier\n".format(repr(string))+
-      "(it contains non-printable characters)")
+      "(it contains non-printable characters or empty identifiers)")
 
 def validate_decoded(obj):
   if isinstance(obj, list):
+    if len(obj) == 0:
+      raise gfapy.FormatError("the list of GFA2 identifiers is empty")
     for elem in obj:
       if isinstance(elem, gfapy.Line):
         elem = str(elem.name)
